@@ -329,9 +329,26 @@ func (e *env) randOpts(r *rand.Rand, cfg parser.CommandConfig) (h.Opts, string) 
 	return o, name
 }
 
+// hostileCfgs: command configs a user could write by mistake - positions outside every argument list
+// (negative, huge), both forms at once, an empty var name, keywords and ordinary commands as AutoVar commands.
+var hostileCfgs = []parser.CommandConfig{
+	{AutoVarCommands: map[string]parser.AutoVarCommand{
+		"random": {VarNameArgPosition: intp(-1)}, "checkitem": {VarNameArgPosition: intp(-1 << 62)}, "getpartysize": {VarNameArgPosition: intp(1 << 62)},
+		"yesnobox": {VarName: "VAR_RESULT", VarNameArgPosition: intp(-3)}, "specialvar": {VarNameArgPosition: intp(7)}, "checkcoins": {VarName: ""}, "second": {VarNameArgPosition: intp(0)},
+	}},
+	{AutoVarCommands: map[string]parser.AutoVarCommand{
+		"flag": {VarName: "VAR_RESULT"}, "var": {VarNameArgPosition: intp(0)}, "defeated": {VarNameArgPosition: intp(-1)}, "if": {VarName: "VAR_RESULT"}, "value": {VarName: "V"},
+		"msgbox": {VarNameArgPosition: intp(0)}, "end": {VarName: "VAR_RESULT"}, "switch": {VarName: "VAR_RESULT"}, "case": {VarNameArgPosition: intp(0)}, "format": {VarName: "F"}, "moves": {VarNameArgPosition: intp(1)},
+		"random": {VarName: "VAR_RESULT", VarNameArgPosition: intp(0)}, "lock": {VarNameArgPosition: intp(0)}, "_": {VarName: "U"}, "": {VarName: "E"},
+	}},
+}
+
 func (e *env) pickCfg(r *rand.Rand) parser.CommandConfig {
-	if r.IntN(12) == 0 {
+	switch x := r.IntN(12); {
+	case x == 0:
 		return e.cfgEmpty
+	case x <= 2:
+		return hostileCfgs[r.IntN(len(hostileCfgs))]
 	}
 	return e.cfgStd
 }
